@@ -322,6 +322,7 @@ impl Join {
                     columns,
                     string_pool.long_string_refs(),
                 );
+                validate_join_condition(&condition, &table)?;
                 let mut rows = Vec::<Vec<ValueRef>>::new();
                 for value_refs1 in rows1.iter() {
                     for value_refs2 in rows2.iter() {
@@ -362,6 +363,7 @@ impl Join {
                     columns,
                     string_pool.long_string_refs(),
                 );
+                validate_join_condition(&condition, &table)?;
                 let mut rows = Vec::<Vec<ValueRef>>::new();
                 for value_refs1 in rows1.iter() {
                     let mut found_any = false;
@@ -399,6 +401,19 @@ impl Join {
             }
         }
     }
+}
+
+/// Checks that a join condition only refers to columns of the joined table.
+fn validate_join_condition(condition: &Expr, table: &Table) -> io::Result<()> {
+    for column_name in condition.column_names().into_iter() {
+        if !table.has_column(column_name) {
+            invalid_input!(
+                "Joined table has no column named {:?}",
+                column_name
+            );
+        }
+    }
+    Ok(())
 }
 
 impl fmt::Display for Join {
